@@ -367,7 +367,10 @@ PROPS["C01"] = dict(
     rule=STARK_RULE + "; the independent checker confirms the statement is true; prove, verify under OptionSet([own options]), "
          "decode(to_bytes) == proof and verifies; plus directed corners (255 unique queries on a 2^19 LDE domain, 2 / 3 / 33 "
          "exemptions, width up to 255, smallest trace, long sequence assertions, high-degree aux+periodic); also under "
-         "debug assertions / overflow checks and in the concurrent build; distinct = instance descriptions",
+         "debug assertions / overflow checks and in the concurrent build; the 10 bundled examples (fib2/8, mulfib2/8, "
+         "fib_small over f64, vdf, vdf with exemptions, rescue, rescue_raps, merkle) at trace lengths 2^3..2^9 x 3 hashers x "
+         "random valid options: prove, verify, verify after a round trip, wrong public input rejected; "
+         "distinct = instance descriptions",
     assumptions=["configuration validity predicate of DESIGN.md 4.3 (options accepted by ProofOptions::new, blowup >= AIR minimum, "
                  "queries < LDE domain size, realisable FRI geometry, LDE domain <= 2^22)",
                  "traces are generated from the recurrence from a random first row (full-degree columns), so the prover's "
@@ -378,7 +381,9 @@ PROPS["C01"] = dict(
     floor=100,
     stages=[Stage("c01", pkg="mon_stark", variant="rel", kind="sharded", n=(500, 20000), timeout=(900, 3600)),
             Stage("c01", pkg="mon_stark", variant="chk", kind="sharded", n=(160, 3000), timeout=(900, 3600), args=["--exact", "1"]),
-            Stage("c01", pkg="mon_stark", variant="par", kind="sharded", n=(120, 2000), timeout=(900, 3600), threads=4, args=["--maxlogn", "12"])],
+            Stage("c01", pkg="mon_stark", variant="par", kind="sharded", n=(120, 2000), timeout=(900, 3600), threads=4, args=["--maxlogn", "12"]),
+            Stage("c01_examples", pkg="mon_stark", variant="rel", kind="sharded", n=(320, 8000), timeout=(900, 3600)),
+            Stage("c01_examples", pkg="mon_stark", variant="chk", kind="sharded", n=(100, 1000), timeout=(900, 3600))],
 )
 
 PROPS["C02"] = dict(
